@@ -45,6 +45,42 @@ CHECKS = {
             "s2 == s1 bytewise and the second report has no changeset.",
             "Relative to the seed corpus and context dimensions; candidates are re-executed alone through the CLI twice.",
             "3 C07"),
+    "C09": (MC, "history BFS over codemod sequences on collision projects: one invocation vs chain of single invocations",
+            "For every ordered pair of the interacting codemods the real run() is executed as one invocation and as a chain on the evolving tree; "
+            "states (trees) and per-codemod results are compared; states are de-duplicated by content hash.",
+            "Collision projects built from canonical seeds, a shared collision file and a manifest; new candidates re-executed through the CLI twice.",
+            "3 C09"),
+    "C10": ("fault_enumeration", "exhaustive fault-point enumeration (fault kind x position x pipeline kind, then pairs) against the fault-free twin run",
+            "Every single fault (4 content faults, vanish-before-transform, transformer raising on entry / first / middle / last node) at every "
+            "file position for three pipeline kinds, plus fault pairs, executed by the real run() with a second codemod following; other files, "
+            "changesets, failedFiles, unfixedFindings, report validity and exit status are compared with the fault-free run.",
+            "vanish/raise faults are injected by harness-installed wrappers (no hooks in /repo); permission faults are invisible as root.",
+            "3 C10"),
+    "C11": (MC, "stateless preemption-bounded DFS over thread interleavings of the real per-file tasks + exhaustive enumeration of seam answers",
+            "(a) every interleaving with at most b preemptions of the per-file tasks on the real ThreadPoolExecutor (baton scheduler; function-level "
+            "seams and PEP 669 line events in the framework modules), (b) pool size and measured in-flight tasks for every (w, n), (c) all 24 orders "
+            "of the registry's entry points + real PYTHONHASHSEED runs, (d) every order of Path.rglob answers, (e) sibling independence over subsets "
+            "of a small project for every codemod; in each dimension exactly one outcome is required.",
+            "Schedules serialise tasks at line/function granularity (GIL semantics); C-level races inside libcst are out of scope.",
+            "3 C11"),
+    "C12": (MC, "exhaustive enumeration of result-set families and generated tool documents against reference merge / extraction",
+            "All ordered families of result sets over 2 rules x 2 files with 0-2 results per key (pairs; triples) merged with | and |= for the base "
+            "class and the four tool classes; generated Sonar / SARIF / DefectDojo documents through the public parsers and loader functions; "
+            "end-to-end runs over every partition of n findings into result files, every order and flag assignment.",
+            "Multiset comparison; foreign (rule, file) keys are ignored as the property allows.",
+            "3 C12"),
+    "C15": (MC, "state invariant (schema + structural invariants) on every report of the pair histories and a corner enumeration",
+            "A vendored CodeTF schema and the structural invariants of the property are evaluated on the report, tree and log of every state of "
+            "the pair-history graph and of a dedicated enumeration of corner configurations (zero codemods / files, failures, dependency "
+            "changes, non-ASCII, SAST tools, dry run, whole default and Sonar sets).",
+            "Line-number bound computed by folding the reported diffs (covers several codemods and dry runs).",
+            "3 C15"),
+    "C20": (MC, "explicit enumeration of labelled argument vectors x run-time conditions against a decision table",
+            "All ordered vectors of at most b labelled option fragments (valid, info, immediate / deferred errors, conflicts), both directory "
+            "positions, crossed with run-time conditions (directory, result files, AI environment, output path: singles and pairs), through the "
+            "real run(); every fragment and condition class also through the console script.",
+            "With several applicable failure conditions any of their statuses is accepted; read-only outputs not enumerable as root.",
+            "3 C20"),
     "C17": (
         MC,
         "explicit-state enumeration of selection configurations against a reference model",
